@@ -367,7 +367,8 @@ def evaluate(ctx, name, lines, relevant, dbg=False, x=True, nontrivial=None, cap
     ctx.count("clauses_evaluated", nclauses)
     if lines and len(ctx.samples) < 12:
         k = ctx.rng.randrange(len(lines))
-        ctx.samples.append(dict(batch=name, case=lines[k], impl=impl[k]))
+        clip = lambda t: t if len(t) <= 600 else t[:600] + '…[%d chars]' % len(t)
+        ctx.samples.append(dict(batch=name, case=clip(lines[k]), impl=clip(impl[k])))
     return impl, model, verd
 
 
